@@ -54,8 +54,8 @@ def finishWilson (conf : Confidence W) (mean span : W) : Outcome (Err W) (Interv
   let high := fmin (add mean span) (one : W)
   match conf with
   | .twoSided _ => liftI (Interval.new low high)
-  | .upper _ => liftI (Interval.new low (one : W))
-  | .lower _ => liftI (Interval.new (zero : W) high)
+  | .upper _ => liftI (Interval.new (fmin low (one : W)) (one : W))
+  | .lower _ => liftI (Interval.new (zero : W) (fmax high (zero : W)))
 
 /-- the two Wilson numbers: `mean = (k + z²/2)/(n + z²)`, `span = z/(n + z²) · sqrt(k(n-k)/n + z²/4)` -/
 def wilsonCentre (n ns z : W) : W :=
